@@ -442,6 +442,20 @@ def run_input(box, sc, stats, full=True, pick=12):
                    nontrivial=(mode[0] == "golden" and nontrivial_msg(c.msg)) or (mode[0] != "golden" and hit),
                    classes=cl, key=(key_in, mode))
         if v:
+            # report only what reproduces on two further executions of the same run (DESIGN.md 1: 'replayed 3x')
+            for _ in range(2):
+                rc2, err2, t02, t12, ev2 = c.execute(**kw)
+                v2 = None if rc2 is None else (judge_maildir(c, mode, rc2, ev2, vlib.Stats()) if c.kind == "maildir"
+                                               else judge_mbox(c, mode, rc2, ev2, t02, t12, vlib.Stats()))
+                if v2 is None:
+                    stats.inconclusive += 1
+                    stats.cls("unreproducible")
+                    stats.extra["unreproducible_example"] = ("%s | mode=%s" % (v, list(mode)))[:1500]
+                    dbg = os.environ.get("VERIF_DEBUGLOG")
+                    if dbg:
+                        with open(dbg, "a") as f:
+                            f.write("C12 unreproducible: %s | mode=%s input=%s\n" % (v, list(mode), json.dumps(vlib.jsonable(sc))))
+                    return None, ev, rc
             return "%s | mode=%s input=%s" % (v, list(mode), json.dumps(vlib.jsonable(sc))[:1000]), ev, rc
         return None, ev, rc
 
